@@ -70,10 +70,11 @@ class ShmProp(Prop):
                   'evidence, not proof')
     level_note = 'trusts: the atomic shim (every std::atomic operation is a scheduling point); sequential consistency; the harness bookkeeping'
     assumptions = ASSUME
-    quick_runs = 36
-    thorough_runs = 1500
-    quick_wall = 26
-    thorough_wall = 570
+    # one plan = one process = cases_per_plan cases x reps schedule seeds; measured here (4 workers, loaded machine): 12-16 k case runs/s
+    quick_runs = 32
+    thorough_runs = 6000
+    quick_wall = 22
+    thorough_wall = 540
     cases_per_plan = 3000
     reps = 3
     crash_share = 0.15
@@ -354,6 +355,7 @@ class C55(ShmProp):
     id = 'C55'
     structure = 'storemap'
     cases_per_plan = 1500
+    quick_runs = 44
     rule = ('case = 2-4 tasks with 3-30 operations each on a real Ipc::StoreMap with 3-8 anchors/slices created by StoreMap::Init on shared segments, '
             '1-4 keys (colliding anchor positions included), a real PageStack as slice allocator and the harness as StoreMapCleaner. Operations: '
             'openForWriting+setKey, append slice, startAppending, closeForWriting, abortWriting, switchWritingToReading, openForReading, walk the '
@@ -421,6 +423,7 @@ class C56(ShmProp):
     id = 'C56'
     structure = 'queue'
     min_tasks = 2
+    quick_runs = 26
     rule = ('case = one consumer task and 1-3 producer tasks, every producer with its own real Ipc::OneToOneUniQueue (capacity 1-4) and all of them '
             'sharing one real Ipc::QueueReader as the queues of one BaseMultiQueue reader do; a producer pushes 3-30 unique items (retrying later when '
             'the queue is full) and notifies the consumer iff push() says so; the consumer pops until all queues are empty, idles until a notification '
